@@ -442,6 +442,37 @@ pub fn run(args: &Args) {
 				}
 			}
 		}
+		// the compound assignments are the same operations: `c += x` must leave what `c + x` returns (and panic when
+		// it panics), for amounts of either sign; sent to the model under the binary operator's case kind
+		{
+			let ts = if i % 3 == 0 { -t } else { t };
+			let keyc = |k: &str| Some(format!("{k}:{tk}:{}:{}", fr.to_bits(), ts.to_bits()));
+			let oa = catch(|| {
+				let mut d = c;
+				d += ts;
+				ct_obs(d)
+			});
+			s.case("ct_add_assign_f64", format!("CAddF {} {} {}", tk, f64_bits_z(fr), f64_bits_z(ts)), &encode_outcome(&oa), keyc("aa"));
+			let ob = catch(|| ct_obs(c + ts));
+			if encode_outcome(&oa) != encode_outcome(&ob) {
+				s.fail(format!("c = ClockTime({tk},{fr:?}); c += {ts:?}"), format!("leaves {:?} but c + {ts:?} is {:?} (observations: ticks, fraction bits)", encode_outcome(&oa), encode_outcome(&ob)), None);
+			}
+			let oa = catch(|| {
+				let mut d = c;
+				d -= ts;
+				ct_obs(d)
+			});
+			s.case("ct_sub_assign_f64", format!("CSubF {} {} {}", tk, f64_bits_z(fr), f64_bits_z(ts)), &encode_outcome(&oa), keyc("sa"));
+			let ob = catch(|| ct_obs(c - ts));
+			if encode_outcome(&oa) != encode_outcome(&ob) {
+				s.fail(format!("c = ClockTime({tk},{fr:?}); c -= {ts:?}"), format!("leaves {:?} but c - {ts:?} is {:?}", encode_outcome(&oa), encode_outcome(&ob)), None);
+			}
+			if let (Outcome::Ok(d), true) = (catch(|| { let mut d = c; d += ts; d }), ts.is_finite()) {
+				if !(d.fraction >= 0.0 && d.fraction < 1.0) {
+					s.fail(format!("c = ClockTime({tk},{fr:?}); c += {ts:?}"), format!("fraction {:?} outside [0,1)", d.fraction), None);
+				}
+			}
+		}
 		// u64 ops
 		let k = match rng.below(4) {
 			0 => 0,
@@ -453,6 +484,18 @@ pub fn run(args: &Args) {
 		s.case("ct_add_u64", format!("CAddU {} {} {}", tk, f64_bits_z(fr), k), &encode_outcome(&o), key("au"));
 		let o = catch(|| ct_obs(c - k));
 		s.case("ct_sub_u64", format!("CSubU {} {} {}", tk, f64_bits_z(fr), k), &encode_outcome(&o), key("su"));
+		let o = catch(|| {
+			let mut d = c;
+			d += k;
+			ct_obs(d)
+		});
+		s.case("ct_add_assign_u64", format!("CAddU {} {} {}", tk, f64_bits_z(fr), k), &encode_outcome(&o), Some(format!("aau:{tk}:{}:{k}", fr.to_bits())));
+		let o = catch(|| {
+			let mut d = c;
+			d -= k;
+			ct_obs(d)
+		});
+		s.case("ct_sub_assign_u64", format!("CSubU {} {} {}", tk, f64_bits_z(fr), k), &encode_outcome(&o), Some(format!("sau:{tk}:{}:{k}", fr.to_bits())));
 		// from_ticks_f64
 		let x = gen_f64(&mut rng);
 		let c3 = ClockTime::from_ticks_f64(cid, x);
